@@ -4,7 +4,7 @@
    particle-number balance of the operators (C: +1, A: -1, I/N/Z: 0), starting and ending at 0. *)
 From Coq Require Import ZArith List Lia Bool Arith.
 From PT Require Import Base.Scalar Base.BigSum Model.OpGraph Model.FromOpchains Model.Molecular
-                       Proofs.DenRev_C05 Proofs.FromOpchainsThm.
+                       Proofs.DenRev_C05 Proofs.FromOpchainsThm Proofs.FromOpchainsWF3 Proofs.C05Total.
 Import ListNotations.
 Open Scope nat_scope.
 
@@ -172,20 +172,40 @@ Section MolOpt.
   Qed.
 
   (* hypotheses of C05's full statement hold as soon as one coefficient is non-zero *)
-  Theorem mol_chains_wf_chains L t v : (exists c, In c (mol_chains half L t v) /\ c_coeff c <> k0 R) ->
-    wf_chains L (mol_chains half L t v) = true.
+  Lemma wf_chains_intro L (chains : list chain) :
+    (forall c, In c chains -> wf_chain L c = true /\ last (padded_qnums L c) 0%Z = 0%Z) ->
+    (exists c, In c chains /\ c_coeff c <> k0 R) -> wf_chains L chains = true.
   Proof.
-    intros [c0 [Hin Hnz]]. unfold wf_chains. pose proof (mol_chains_wf L t v) as W. rewrite Forall_forall in W.
+    intros W [c0 [Hin Hnz]]. unfold wf_chains.
     apply andb_true_iff. split.
     - apply forallb_forall. intros c Hc. apply (W c Hc).
-    - destruct (filter (@nonzero R) (mol_chains half L t v)) as [|c1 tl] eqn:E.
-      + assert (Hf : In c0 (filter (@nonzero R) (mol_chains half L t v))).
+    - destruct (filter (@nonzero R) chains) as [|c1 tl] eqn:E.
+      + assert (Hf : In c0 (filter (@nonzero R) chains)).
         { apply filter_In. split; auto. unfold nonzero. apply negb_true_iff. apply keqb_false. exact Hnz. }
         rewrite E in Hf. destruct Hf.
       + apply forallb_forall. intros c Hc.
-        assert (H1 : In c1 (mol_chains half L t v)) by (apply (proj1 (filter_In (@nonzero R) c1 (mol_chains half L t v))); rewrite E; left; auto).
-        assert (H2 : In c (mol_chains half L t v)) by (apply (proj1 (filter_In (@nonzero R) c (mol_chains half L t v))); rewrite E; right; auto).
-        destruct (W c1 H1) as [_ [B1 _]]. destruct (W c H2) as [_ [B2 _]]. rewrite B1, B2. reflexivity.
+        assert (H1 : In c1 chains) by (apply (proj1 (filter_In (@nonzero R) c1 chains)); rewrite E; left; auto).
+        assert (H2 : In c chains) by (apply (proj1 (filter_In (@nonzero R) c chains)); rewrite E; right; auto).
+        destruct (W c1 H1) as [_ B1]. destruct (W c H2) as [_ B2]. rewrite B1, B2. reflexivity.
+  Qed.
+
+  Theorem mol_chains_wf_chains L t v : (exists c, In c (mol_chains half L t v) /\ c_coeff c <> k0 R) ->
+    wf_chains L (mol_chains half L t v) = true.
+  Proof.
+    intros H. apply wf_chains_intro; auto. intros c Hc.
+    pose proof (mol_chains_wf L t v) as W. rewrite Forall_forall in W. destruct (W c Hc) as [A [B _]]. split; auto.
+  Qed.
+
+  (* boolean well-formedness of a skeleton (independent of the coefficient) *)
+  Definition skel_wfb (L : nat) (s : skel) : bool :=
+    Nat.eqb (length (k_qnums s)) (S (length (k_oids s))) && Nat.leb (length (k_oids s) + k_istart s) L &&
+    (hd 0%Z (repeat 0%Z (k_istart s) ++ k_qnums s ++ repeat 0%Z (L - length (k_oids s) - k_istart s)) =? 0)%Z &&
+    (last (repeat 0%Z (k_istart s) ++ k_qnums s ++ repeat 0%Z (L - length (k_oids s) - k_istart s)) 0%Z =? 0)%Z.
+  Lemma attach_wfb {T} (coeff : T -> R) L (st : skel * T) : skel_wfb L (fst st) = true ->
+    wf_chain L (attach coeff st) = true /\ last (padded_qnums L (attach coeff st)) 0%Z = 0%Z.
+  Proof.
+    unfold skel_wfb, wf_chain, chain_ok, padded_qnums, attach. cbn [c_oids c_qnums c_istart].
+    rewrite !andb_true_iff. intros [[[A B] C] D]. repeat split; auto. apply Z.eqb_eq. exact D.
   Qed.
 
   (* ---- (a): the optimized graphs denote the enumerated chain lists ---- *)
@@ -194,10 +214,11 @@ Section MolOpt.
     forall w, den_rev g w = chains_den L 0%Z (mol_chains half L t v) w.
   Proof. intros HL H. exact (from_opchains_den_rev R cover _ L 0%Z g HL H). Qed.
 
+  (* every graph the model of from_opchains returns, for every cover oracle: cross-references consistent, meaning = chain sum *)
   Theorem mol_opt_den cover L t v g : 1 <= L ->
-    from_opchains cover (mol_chains half L t v) L 0%Z = Ok g -> linked g = true ->
-    forall w, den g w = chains_den L 0%Z (mol_chains half L t v) w.
-  Proof. intros HL H Hl. exact (from_opchains_den R cover _ L 0%Z g HL H Hl). Qed.
+    from_opchains cover (mol_chains half L t v) L 0%Z = Ok g ->
+    linked g = true /\ forall w, den g w = chains_den L 0%Z (mol_chains half L t v) w.
+  Proof. intros HL H. exact (from_opchains_den_full R cover _ L 0%Z g HL H). Qed.
 
   Theorem spin_mol_opt_den_rev cover L t v cs g : 1 <= L ->
     spin_chains half L t v = Ok cs -> from_opchains cover cs L 0%Z = Ok g ->
@@ -205,7 +226,59 @@ Section MolOpt.
   Proof. intros HL _ H. exact (from_opchains_den_rev R cover _ L 0%Z g HL H). Qed.
 
   Theorem spin_mol_opt_den cover L t v cs g : 1 <= L ->
-    spin_chains half L t v = Ok cs -> from_opchains cover cs L 0%Z = Ok g -> linked g = true ->
-    forall w, den g w = chains_den L 0%Z cs w.
-  Proof. intros HL _ H Hl. exact (from_opchains_den R cover _ L 0%Z g HL H Hl). Qed.
+    spin_chains half L t v = Ok cs -> from_opchains cover cs L 0%Z = Ok g ->
+    linked g = true /\ forall w, den g w = chains_den L 0%Z cs w.
+  Proof. intros HL _ H. exact (from_opchains_den_full R cover _ L 0%Z g HL H). Qed.
+
+  (* ---- success of the optimized spinless construction (with the proved model of minimum_vertex_cover):
+     for every L >= 1 and all coefficients such that the Hamiltonian has a non-vanishing chain coefficient ---- *)
+  Definition mol_nonzero (L : nat) (t : nat -> nat -> R) (v : nat -> nat -> nat -> nat -> R) : Prop :=
+    (exists i j, i < L /\ j < L /\ t i j <> k0 R) \/
+    (exists i j k l, i < j < L /\ k < l < L /\ gint half v i j k l <> k0 R).
+
+  Lemma mol_nonzero_chain L t v : mol_nonzero L t v -> exists c, In c (mol_chains half L t v) /\ c_coeff c <> k0 R.
+  Proof.
+    intros [[i [j [Hi [Hj Hn]]]] | [i [j [k [l [Hij [Hkl Hn]]]]]]].
+    - exists (attach (mol_coeff half t v) (hop_skel i j, THop i j)). split; [|exact Hn].
+      unfold mol_chains. apply in_map. unfold mol_skels. apply in_or_app. left.
+      unfold mol_hop_skels. apply in_flat_map. exists i. split; [apply in_seq; lia|].
+      apply in_map_iff. exists j. split; [reflexivity|apply in_seq; lia].
+    - exists (attach (mol_coeff half t v) (int_skel i j k l, TInt i j k l)). split; [|exact Hn].
+      unfold mol_chains. apply in_map. unfold mol_skels. apply in_or_app. right.
+      unfold mol_int_skels. apply in_flat_map. exists (i, j). split; [apply pairs_lt_In; lia|].
+      apply in_map_iff. exists (k, l). split; [reflexivity|apply pairs_lt_In; lia].
+  Qed.
+
+  Theorem mol_opt_total L t v : 1 <= L -> mol_nonzero L t v ->
+    exists g, from_opchains cover_model (mol_chains half L t v) L 0%Z = Ok g /\ linked g = true /\
+              forall w, den g w = chains_den L 0%Z (mol_chains half L t v) w.
+  Proof.
+    intros HL Hn. apply from_opchains_total_model; auto.
+    apply mol_chains_wf_chains. apply mol_nonzero_chain. exact Hn.
+  Qed.
+
+  (* spin orbitals: success for every L for which the skeletons evaluate to well-formed ones *)
+  Definition spin_skels_wfb (L : nat) : bool :=
+    match spin_skels L with Ok sk => forallb (fun st => skel_wfb L (fst st)) sk | Err _ => false end.
+  Theorem spin_mol_opt_total_of_check L t v : 1 <= L -> spin_skels_wfb L = true ->
+    exists cs, spin_chains half L t v = Ok cs /\
+      ((exists c, In c cs /\ c_coeff c <> k0 R) ->
+       exists g, from_opchains cover_model cs L 0%Z = Ok g /\ linked g = true /\ forall w, den g w = chains_den L 0%Z cs w).
+  Proof.
+    intros HL H. unfold spin_skels_wfb in H. unfold spin_chains. destruct (spin_skels L) as [sk|e]; [|discriminate].
+    eexists. split; [reflexivity|]. intros Hn. apply from_opchains_total_model; auto.
+    apply wf_chains_intro; auto. intros c Hc. apply in_map_iff in Hc. destruct Hc as [st [E Hst]]. subst c.
+    rewrite forallb_forall in H. apply attach_wfb. apply H. exact Hst.
+  Qed.
 End MolOpt.
+
+Lemma spin_skels_wf_upto_6 : forallb spin_skels_wfb (seq 1 6) = true.
+Proof. vm_compute. reflexivity. Qed.
+Theorem spin_mol_opt_total_bounded (R : cring) (half : R) L t v : 1 <= L <= 6 ->
+  exists cs, spin_chains half L t v = Ok cs /\
+    ((exists c, In c cs /\ c_coeff c <> k0 R) ->
+     exists g, from_opchains cover_model cs L 0%Z = Ok g /\ linked g = true /\ forall w, den g w = chains_den L 0%Z cs w).
+Proof.
+  intros HL. apply spin_mol_opt_total_of_check; [lia|].
+  pose proof spin_skels_wf_upto_6 as H. rewrite forallb_forall in H. apply H. apply in_seq. lia.
+Qed.
